@@ -221,6 +221,8 @@ def extract(P, G):
                         codec = nm
                         fmt = C[nm].fmt_for(hi - lo)
                         whole = p
+                    elif U(p.func) == 'struct.unpack' and p.args and isinstance(p.args[0], ast.Constant):
+                        codec, fmt, whole = 'struct.unpack', p.args[0].value, p
                     elif nm in ('bytearray', 'bytes'):
                         codec = 'raw'
                 elif isinstance(p, ast.Attribute) and p.attr == 'hex':
